@@ -538,6 +538,35 @@ def r3_bb(ctx, repo):
     ctx.check3(mstate, "R3", "doe.build_box_behnken", where(doe, bb), "codes -1/0/+1 shifted to indices 0/1/2 of the sorted list [lo, mid, hi]", mbad, "code-to-level mapping not recognised", key="codes")
 
 
+def _short_round_up(fn):
+    """R = (A + c) // B with R * B (or a reshape to (R, B)) used afterwards is meant as "A rounded up to whole rows of B":
+    that needs R * B >= A for all sizes; the quotient is evaluated over small integers (exact integer arithmetic on the
+    expression) and a pair where the rows fall short is the witness"""
+    import itertools as _it
+    for st in [x for x in ast.walk(fn) if isinstance(x, ast.Assign) and len(x.targets) == 1 and isinstance(x.targets[0], ast.Name)]:
+        v = st.value
+        if not (isinstance(v, ast.BinOp) and isinstance(v.op, ast.FloorDiv) and isinstance(v.right, ast.Name) and isinstance(v.left, ast.BinOp)
+                and isinstance(v.left.op, (ast.Add, ast.Sub))):
+            continue
+        R, B = st.targets[0].id, v.right.id
+        names = {n.id for n in ast.walk(v.left) if isinstance(n, ast.Name)}
+        if not all(isinstance(n, (ast.BinOp, ast.Name, ast.Constant, ast.Add, ast.Sub, ast.Mult, ast.Load)) for n in ast.walk(v.left)) or not (1 <= len(names - {B}) <= 1):
+            continue
+        A = next(iter(names - {B}))
+        used = any(isinstance(m, ast.BinOp) and isinstance(m.op, ast.Mult) and {access_path(m.left), access_path(m.right)} == {R, B} for m in ast.walk(fn)) or \
+            any(isinstance(c, ast.Call) and isinstance(c.func, ast.Attribute) and c.func.attr == "reshape" and [access_path(a) for a in c.args] == [R, B] for c in ast.walk(fn))
+        if not used:
+            continue
+        code = compile(ast.Expression(body=v.left), "<quotient>", "eval")
+        for a_, b_ in _it.product(range(2, 25), range(2, 9)):
+            rows = eval(code, {"__builtins__": {}}, {A: a_, B: b_}) // b_      # integers only: names, literals, + - *
+            if rows * b_ < a_:
+                return ("`%s = %s` is used as the number of rows of %s that hold %s entries, but (%s) // %s rounds up only for %s = 2: with %s = %d and %s = %d it gives %d row(s), "
+                        "%d places for %d entries - the top level(s) of the largest factor belong to no partition, so the complementary designs no longer cover the full factorial"
+                        % (R, text(v), B, A, text(v.left), B, B, A, a_, B, b_, rows, rows * b_, a_))
+    return None
+
+
 def r4_gsd_partial(ctx, repo):
     """generalized subset design: only the two structural ingredients that are visible in the code are decided"""
     doe = repo.module("doe")
@@ -589,6 +618,10 @@ def r4_gsd_partial(ctx, repo):
                     state = bool(okp and okl and oki and okg)
                     detail = "level index = partition + (k-1)*reduction <= number of levels: residue classes mod `reduction`, disjoint and covering 1..L (for L >= 2)" if state else \
                         "the partition of a factor's levels is not the residue-class partition index = p + (k-1)*reduction <= L (p-range ok=%s, k-range ok=%s, index ok=%s, guard ok=%s)" % (bool(okp), bool(okl), bool(oki), bool(okg))
+    if state is None:
+        ru = _short_round_up(mp)
+        if ru:
+            state, detail = False, ru
     ctx.check3(state, "R4", C, where(doe, mp), detail, detail, detail, key="partitions")
     ls = doe.functions.get("_make_latin_square")
     lrt = [alpha(fuse(t)) for _, t in Terms(ls).returns if t is not None] if ls else []
